@@ -167,6 +167,37 @@ def watermarksOf : List SEv → List Int
   | .ev _ :: s => watermarksOf s
   | .wm v :: s => v :: watermarksOf s
 
+/-! ### two consumers of the output stream (after a live redeploy of the runner: finding D39) -/
+
+/-- `HandleDeploy` on a live runner starts a second `for opEvent := range r.outputStream` goroutine and does not stop the
+first one. Both call `sendOperatorEvent` on the one shared watermarker: for a watermark placeholder a consumer reads
+`CurrentWatermark()` (`stamp`) and broadcasts the stamped message in a later step (`send`); in between the other
+consumer may forward events and stamp and send its own watermark. -/
+inductive Act2 where
+  | forward (ts : List Int)     -- either consumer forwards a resolved keyed-event batch
+  | stamp (second : Bool)       -- consumer `second` stamps the watermark placeholder it took
+  | send (second : Bool)        -- consumer `second` broadcasts its stamped watermark
+deriving Repr
+
+structure St2 where
+  w : Watermarker
+  held0 : Option Int := none
+  held1 : Option Int := none
+
+def step2 (s : St2) : Act2 → St2 × Option Int
+  | .forward ts => ({ s with w := ts.foldl Watermarker.advanceTime s.w }, none)
+  | .stamp false => ({ s with held0 := some s.w.current }, none)
+  | .stamp true => ({ s with held1 := some s.w.current }, none)
+  | .send false => ({ s with held0 := none }, s.held0)
+  | .send true => ({ s with held1 := none }, s.held1)
+
+/-- the watermarks broadcast, in the order the operators receive them -/
+def run2 (s : St2) : List Act2 → List Int
+  | [] => []
+  | a :: as => match (step2 s a).2 with
+    | some v => v :: run2 (step2 s a).1 as
+    | none => run2 (step2 s a).1 as
+
 /-! ### upstream map and composite watermark of `TimerRegistry` -/
 
 /-- `map[string]time.Time` as an association list with unique keys (iteration order is irrelevant: only the
